@@ -60,6 +60,19 @@ B = [
  ("add-subcircuit-overlaps-collected", "C07,C06", [("circuitgraph/circuit.py",
     '        mapping = {}\n        for n in sc:\n            if f"{name}_{n}" in self.graph.nodes:\n                raise ValueError(f"name {n} overlaps with {name} subcircuit.")\n            mapping[n] = f"{name}_{n}"',
     '        mapping = {n: f"{name}_{n}" for n in sc}\n        overlap = sorted(n for n, m in mapping.items() if m in self.graph.nodes)\n        if overlap:\n            raise ValueError(f"names {overlap} overlap with {name} subcircuit.")')]),
+ ("bench-reader-memo-with-private-copies", "C15", [
+    ("circuitgraph/io.py", "    # create circuit\n    c = Circuit(name=name)\n\n    dff = BlackBox(\"dff\", [\"D\"], [\"Q\"])",
+     "    key = (name, netlist)\n    if key in _BENCH_MEMO:\n        return _BENCH_MEMO[key].copy()\n    # create circuit\n    c = Circuit(name=name)\n\n    dff = BlackBox(\"dff\", [\"D\"], [\"Q\"])"),
+    ("circuitgraph/io.py", "            c.set_output(n)\n\n    return c\n", "            c.set_output(n)\n\n    _BENCH_MEMO[key] = c.copy()\n    return c\n"),
+    ("circuitgraph/io.py", "def bench_to_circuit(netlist, name):", "_BENCH_MEMO = {}\n\n\ndef bench_to_circuit(netlist, name):")]),
+ ("verilog-grammar-text-read-once", "C03", [
+    ("circuitgraph/parsing/verilog.py", "    with open(Path(__file__).parent.absolute() / \"verilog.lark\") as f:\n        parser = Lark(f, parser=\"lalr\", transformer=transformer)",
+     "    global _GRAMMAR\n    if _GRAMMAR is None:\n        with open(Path(__file__).parent.absolute() / \"verilog.lark\") as f:\n            _GRAMMAR = f.read()\n    parser = Lark(_GRAMMAR, parser=\"lalr\", transformer=transformer)"),
+    ("circuitgraph/parsing/verilog.py", "def parse_verilog_netlist(", "_GRAMMAR = None\n\n\ndef parse_verilog_netlist(")]),
+ ("remove-unloaded-kept-types-from-module-constant", "C16", [
+    ("circuitgraph/circuit.py", "        unloaded = [\n            n\n            for n in self.graph\n            if self.type(n) not in [\"bb_input\"]\n            and (inputs or self.type(n) not in [\"input\", \"bb_output\"])",
+     "        kept = set(_BOUNDARY)\n        if inputs:\n            kept -= {\"input\", \"bb_output\"}\n        unloaded = [\n            n\n            for n in self.graph\n            if self.type(n) not in kept"),
+    ("circuitgraph/circuit.py", "class Circuit:", "_BOUNDARY = {\"input\", \"bb_input\", \"bb_output\"}\n\n\nclass Circuit:")]),
  ("unroll-extra-io-buffers-kept", "C09", [("circuitgraph/tx.py", 'def unroll(c, n, state_io, prefix="cg_unroll"):', 'def unroll(c, n, state_io, prefix="cg_unroll", _unused=None):')]),
 ]
 
